@@ -282,6 +282,8 @@ def build_jobs(pid, tier, seed):
                 cfgs = base_cfgs(seed, 3 if quick else 12, 0, snap=True, fresh=True)
             else:
                 cfgs = base_cfgs(seed, 6 if quick else 30, 0, overlap=True, fresh=True)
+            # the oracle is a fresh / solo run WITHOUT collaborator faults: keep the fault-free configurations
+            cfgs = [c for c in cfgs if not c.get('faulty')]
             jobs.append((p['name'], p, cfgs))
         return jobs
     sel = select(progs, pid)
